@@ -545,3 +545,79 @@ def emit_census(site_rows, prim_rows) -> str:
     hdr = "From Coq Require Import List String.\nImport ListNotations.\nOpen Scope string_scope.\n\n"
     return (hdr + "Definition sites : list string := [\n" + ";\n".join("  " + qs(s) for s in site_rows) + "\n].\n\n"
             + "Definition primitives : list string := [\n" + ";\n".join("  " + qs(s) for s in prim_rows) + "\n].\n")
+
+
+# ------------------------------------------------------------------ protocols (C20) -------
+
+def _proto_cond(node) -> str:
+    """Boolean expression over the observable state of an array (record pstate `s`)."""
+    u = ast.unparse(node)
+    if isinstance(node, ast.BoolOp):
+        op = " && " if isinstance(node.op, ast.And) else " || "
+        return "(" + op.join(_proto_cond(v) for v in node.values) + ")"
+    if isinstance(node, ast.UnaryOp) and isinstance(node.op, ast.Not):
+        return f"(negb {_proto_cond(node.operand)})"
+    table = {
+        "eager_value is None": "(negb (has_value s))",
+        "eager_value is not None": "(has_value s)",
+        "eager_value.size == 1": "(size s =? 1)",
+        "eager_value.size != 1": "(negb (size s =? 1))",
+        "self.ndim == 0": "(ndim s =? 0)",
+        "self.ndim != 0": "(negb (ndim s =? 0))",
+        "isinstance(eager_value.item(), int)": "(item_is_int s || item_is_bool s)",
+        "isinstance(eager_value.item(), bool)": "(item_is_bool s)",
+        "isinstance(self.shape[0], int)": "(match shape0 s with DimInt _ => true | _ => false end)",
+        "isinstance(n, int)": "(match shape0 s with DimInt _ => true | _ => false end)",
+    }
+    if u in table:
+        return table[u]
+    raise Untranslatable("protocol condition " + u)
+
+
+def _proto_ret(node) -> str:
+    u = ast.unparse(node)
+    table = {"float(eager_value)": "PConv ToFloat", "int(eager_value)": "PConv ToInt", "bool(eager_value)": "PConv ToBool",
+             "self.shape[0]": "(match shape0 s with DimInt n => PLen n | NoDim => PRaiseOther | DimDynamic => PRaiseOther end)",
+             "(self[i, ...] for i in range(n))": "(match shape0 s with DimInt n => PIter n | _ => PRaiseOther end)"}
+    if u in table:
+        return table[u]
+    raise Untranslatable("protocol return " + u)
+
+
+def _proto_stmts(stmts) -> str:
+    if not stmts:
+        raise Untranslatable("protocol method falls off the end")
+    s, rest = stmts[0], stmts[1:]
+    if isinstance(s, ast.Assign) and ast.unparse(s) == "eager_value = self.to_numpy()":
+        return _proto_stmts(rest)
+    if isinstance(s, ast.Return):
+        return _proto_ret(s.value)
+    if isinstance(s, ast.Raise) and isinstance(s.exc, ast.Call) and isinstance(s.exc.func, ast.Name):
+        return {"ValueError": "PRaiseVE", "TypeError": "PRaiseTE"}.get(s.exc.func.id, "PRaiseOther")
+    if isinstance(s, ast.If):
+        els = s.orelse if s.orelse else rest
+        if s.orelse and rest:
+            raise Untranslatable("statements after if/else")
+        if ast.unparse(s.test) == "isinstance(self.shape[0], int)":
+            # evaluating self.shape[0] on a 0-d array raises IndexError before isinstance runs
+            return f"(match shape0 s with NoDim => PRaiseOther | DimInt _ => {_proto_stmts(s.body)} | DimDynamic => {_proto_stmts(els)} end)"
+        return f"(if {_proto_cond(s.test)} then {_proto_stmts(s.body)} else {_proto_stmts(els)})"
+    if isinstance(s, ast.Try) and ast.unparse(s.body[0]) in ("(n, *_) = self.shape", "n, *_ = self.shape") and len(s.handlers) == 1:
+        # `n, *_ = self.shape`: on a 0-d array the unpacking itself raises (ValueError); the
+        # handler only catches IndexError
+        h = s.handlers[0]
+        return f"(match shape0 s with NoDim => PRaiseVE | _ => {_proto_stmts(rest)} end)"
+    raise Untranslatable("protocol statement " + ast.unparse(s)[:80])
+
+
+def protocols() -> str:
+    text, mod = src("ndonnx/_array.py")
+    cls = [n for n in mod.body if isinstance(n, ast.ClassDef) and n.name == "Array"][0]
+    out = ["From Coq Require Import List Bool ZArith.\nFrom ND Require Import Ndx.Proto.\nOpen Scope Z_scope.\n"]
+    for py, name in (("__float__", "float"), ("__index__", "index"), ("__int__", "int"), ("__bool__", "bool"), ("__len__", "len"), ("__iter__", "iter")):
+        fn = [m for m in cls.body if isinstance(m, ast.FunctionDef) and m.name == py]
+        if len(fn) != 1:
+            raise Untranslatable(f"Array.{py} not found")
+        body = [s for s in fn[0].body if not (isinstance(s, ast.Expr) and isinstance(s.value, ast.Constant))]
+        out.append(f"Definition gen_{name} (s : pstate) : poutcome :=\n  {_proto_stmts(body)}.\n")
+    return "\n".join(out)
